@@ -289,7 +289,7 @@ def generate_mat(ctx, rng):
     """key-switching of switching keys and automorphism of automorphism keys (loops of the GLWE forms over the rows)"""
     quick = ctx.tier == "quick"
     cases = []
-    for k in range(48 if quick else 600):
+    for k in range(36 if quick else 600):
         n = [8, 16, 32][k % 3]
         op = MAT[k % 4]
         c = shape(rng, "ks", n, ntt_only=(k % 9 == 8), force={"dsize": [1, 2, 3, 1][k % 4]})
@@ -360,7 +360,7 @@ def generate_pack(ctx, rng):
             for sub in subsets_of(1 << L):
                 cases.append(pack_shape(rng, "pack", n, [j * gap for j in sub], lgap))
     # random subsets beyond 8 slots, stray (non-slot) indices, NTT-only radices
-    for k in range(24 if quick else 400):
+    for k in range(16 if quick else 400):
         n = [16, 32, 16][k % 3]
         logn = n.bit_length() - 1
         lgap = rng.below(logn - 2) if k % 4 else rng.below(logn + 1)
@@ -378,8 +378,8 @@ def generate_pack(ctx, rng):
         for lb in range(0, logn):
             cnt = n >> lb
             subs = subsets_of(cnt) if cnt <= 8 else []
-            if quick and len(subs) > 40:
-                subs = [subs[rng.below(len(subs))] for _ in range(40)] + [subs[-1], subs[0]]
+            if quick and len(subs) > 24:
+                subs = [subs[rng.below(len(subs))] for _ in range(24)] + [subs[-1], subs[0]]
             for sub in subs:
                 cases.append(pack_shape(rng, "packer", n, sub, lb))
     for k in range(8 if quick else 120):
